@@ -120,6 +120,8 @@ def search(chk, broken):
     hits += real_hits(pbc, rng, 5 if (chk.tier == 'quick' and not broken) else 100)
     evals = 0
     for hit in hits:
+        if chk.over():
+            break
         rows = hit.trajectory
         idx = {}
         for i, r in enumerate(rows):
